@@ -155,16 +155,28 @@ def cmd_adopt(a):
 
 
 def cmd_matrix(a):
+    """write seeded/INDEX.md from the meta.json files"""
     root = os.path.join(VERIF, "seeded")
-    rows = []
+    lines = ["# Seeded changes (generated by tools/seeded.py matrix)", "",
+             "Quick-tier results recorded in each meta.json: `fires` = check exits 1 with a VIOLATION line on the patched tree,",
+             "`silent` = exit 0. A check not listed was not run against that change.", "",
+             "| id | property | change | needs | fires | silent |", "|---|---|---|---|---|---|"]
+    n = caught = 0
     for name in sorted(os.listdir(root)):
         mp = os.path.join(root, name, "meta.json")
         if not os.path.exists(mp):
             continue
         m = json.load(open(mp))
-        rows.append((name, m.get("property"), ",".join(m.get("detected_by", [])) or "-", m.get("summary", "")[:90]))
-    for r in rows:
-        print("| %s | %s | %s | %s |" % r)
+        q = m.get("checks_run", {}).get("quick", {})
+        fires = sorted(c for c, v in q.items() if v["exit"] == 1)
+        silent = sorted(c for c, v in q.items() if v["exit"] == 0)
+        n += 1
+        caught += 1 if m.get("property") in fires else 0
+        lines.append("| %s | %s | %s | %s | %s | %s |" % (name, m.get("property"), m.get("summary", "").replace("|", "/"),
+                                                      m.get("needs", "").replace("|", "/"), " ".join(fires) or "-", " ".join(silent) or "-"))
+    lines += ["", f"{caught} of {n} changes are caught by the quick tier of the check of the property they target."]
+    open(os.path.join(root, "INDEX.md"), "w").write("\n".join(lines) + "\n")
+    print(lines[-1])
     return 0
 
 
